@@ -161,6 +161,10 @@ async fn a_write(op: &Value) -> Value {
                 return io_err_json(&e, "flush");
             }
         }
+        if op.get("mid_after").and_then(|v| v.as_u64()) == Some(i as u64) {
+            // something else happens to the cache directory while this writer is open
+            env_act(&op["mid"]);
+        }
     }
     match end {
         "drop" | "pending_drop" => {
